@@ -75,7 +75,9 @@ def check_transitions(ctx, prog, I, moves_sample, status_modes):
                     mode = '%s step%d %s %s' % ('gold' if gold else 'silver', step, kind,
                                                 ('%s%s' % (G.name(a[1]), a[2])) if a[0] == 'Move' else 'Pass')
                     try:
-                        r = take(I, prog, gsv, move_action(prog, a[1], a[2]) if a[0] == 'Move' else pass_action(prog))
+                        from .rules_panic import tagged
+                        r = tagged(I, (gold, step, a[0]),
+                                   lambda: take(I, prog, gsv, move_action(prog, a[1], a[2]) if a[0] == 'Move' else pass_action(prog)))
                     except Undecided as e:
                         ctx.finding('UNDECIDED', fn, 'transition', 'mode [%s]: %s' % (mode, e))
                         continue
@@ -166,13 +168,15 @@ def check_step_is_len(ctx, prog, I):
 def check_overflow_sites(ctx, I, rule_prop, prog=None):
     """K1: move number arithmetic. The finding is keyed by operator and operand type, so that the known finding (overflow of
     a usize at usize::MAX) does not cover a narrower counter."""
-    from .rules_panic import overflow_type
+    from .rules_panic import overflow_type, turn_end_scope
     for (fname, at, msg), detail in sorted(I.asserts_bad.items()):
         if msg == 'Overflow' and (fname.endswith('GameState::pass') or fname.endswith('GameState::move_piece')):
             ty = overflow_type(prog, fname, at) if prog is not None else 'Add'
+            scope = turn_end_scope(I, (fname, at, msg))
             ctx.ob('%s: move_number + 1 cannot overflow (%s)' % (fname, ty), False, sample=True)
-            ctx.finding('PANIC-SITE', fname, 'Overflow(%s)' % ty,
-                        'move_number + 1 overflows (%s) when the move number is at the maximum of its type and Silver\'s turn ends' % ty, at=at)
+            ctx.finding('PANIC-SITE', fname, 'Overflow(%s)%s' % (ty, scope),
+                        'move_number + 1 overflows (%s) when the move number is at the maximum of its type and %s'
+                        % (ty, 'Silver\'s turn ends' if not scope else 'an action is applied in these situations too: ' + scope[6:]), at=at)
 
 
 # ------------------------------------------------------------------------------------------------ C12
